@@ -1132,7 +1132,7 @@ impl State {
                         _ => {}
                     }
                 }
-                self.rt.block_on(async move {
+                fresh_rt().block_on(async move {
                     let mut stream = crate::sio::Scripted::new(evs, vec![]);
                     let mut out: Vec<String> = vec![];
                     for _ in 0..n {
@@ -1167,7 +1167,7 @@ impl State {
                     _ => return "bad-op".into(),
                 };
                 let dict = self.dict.clone();
-                self.rt.block_on(async move {
+                fresh_rt().block_on(async move {
                     let mut stream = crate::sio::Repeating::new(f, count);
                     let mut ok = 0u64;
                     loop {
@@ -1205,7 +1205,7 @@ impl State {
                 };
                 let adict = self.dict.clone();
                 let dict = self.dict.clone();
-                self.rt.block_on(async move {
+                fresh_rt().block_on(async move {
                     use std::cell::Cell;
                     use std::rc::Rc;
                     let calls = Rc::new(Cell::new(0u64));
@@ -1230,7 +1230,7 @@ impl State {
                     None => return "bad-op".into(),
                 };
                 let msg = &self.msg;
-                self.rt.block_on(async move {
+                fresh_rt().block_on(async move {
                     let mut stream = crate::sio::Scripted::new(vec![], w);
                     let r = tokio::time::timeout(std::time::Duration::from_secs(3600), diameter::transport::Codec::encode(&mut stream, msg)).await;
                     let written = stream.0.lock().unwrap().written.clone();
@@ -1270,7 +1270,7 @@ impl State {
                     }
                 }
                 let dict = self.dict.clone();
-                self.rt.block_on(async move {
+                fresh_rt().block_on(async move {
                     use std::cell::RefCell;
                     use std::rc::Rc;
                     let stream = crate::sio::Scripted::new(rd, wr);
@@ -1442,7 +1442,7 @@ impl State {
                 // the second stays open and silent. The first connection's reader has stopped: its future must complete.
                 let end = end.to_string();
                 let dict = self.dict.clone();
-                self.rt.block_on(async move {
+                fresh_rt().block_on(async move {
                     use diameter::transport::{DiameterClient, DiameterClientConfig};
                     let _ = diameter::verif::take_events();
                     let tail = match end.as_str() {
@@ -1496,7 +1496,7 @@ impl State {
                 }
                 let plan: Vec<String> = plan.split(',').map(|x| x.to_string()).collect();
                 let dict = self.dict.clone();
-                self.rt.block_on(async move {
+                fresh_rt().block_on(async move {
                     use crate::sio::sync_hooks;
                     use diameter::transport::{DiameterClient, DiameterClientConfig};
                     let _ = diameter::verif::take_events();
@@ -1608,7 +1608,7 @@ impl State {
                 let late: Option<u32> = if *late == "-" || drop_client { None } else { late.trim_start_matches('c').parse().ok() };
                 let dict = self.dict.clone();
                 let amode = AMODE.with(|m| m.get());
-                self.rt.block_on(async move {
+                fresh_rt().block_on(async move {
                     use crate::sio::sync_hooks;
                     use diameter::transport::{DiameterClient, DiameterClientConfig};
                     let _ = diameter::verif::take_events();
@@ -1909,6 +1909,13 @@ impl<'a> std::io::Seek for Frag<'a> {
     fn seek(&mut self, p: std::io::SeekFrom) -> std::io::Result<u64> {
         self.c.seek(p)
     }
+}
+
+/// every stream scenario runs on a runtime of its own (current thread, paused virtual time): whatever it leaves behind -
+/// reader tasks parked on silent peers, watchers with an hour to go - goes away with it and cannot stir during a later
+/// scenario (a leftover task polled later would drain the library's process-wide event log into its own, stale trace)
+fn fresh_rt() -> tokio::runtime::Runtime {
+    tokio::runtime::Builder::new_current_thread().enable_all().start_paused(true).build().unwrap()
 }
 
 /// a `fmt::Write` sink with room for so many octets, then errors
